@@ -650,8 +650,91 @@ func protoByteArrayPositions(c *Ctx, prop string) {
 	}
 }
 
+// protoFieldNumbers: fields numbered around every power of two up to the 16 bits the package keeps (whatever table or
+// map a decoder looks numbers up in has its boundaries there), all in one struct and each alone, of three wire types
+func protoFieldNumbers(c *Ctx, prop string) {
+	var nums []int
+	for p := 1; p <= 15; p++ {
+		for _, d := range []int{-1, 0, 1} {
+			if n := 1<<p + d; n >= 1 && n <= 65535 && (len(nums) == 0 || nums[len(nums)-1] < n) {
+				nums = append(nums, n)
+			}
+		}
+	}
+	nums = append(nums, 65535)
+	kinds := []struct {
+		t   reflect.Type
+		tag string
+		set func(v reflect.Value, i int)
+	}{
+		{reflect.TypeOf(int32(0)), "varint", func(v reflect.Value, i int) { v.SetInt(int64(i + 1)) }},
+		{reflect.TypeOf(""), "bytes", func(v reflect.Value, i int) { v.SetString("s" + strconv.Itoa(i)) }},
+		{reflect.TypeOf(uint64(0)), "fixed64", func(v reflect.Value, i int) { v.SetUint(uint64(i + 1)) }},
+	}
+	build := func(ns []int, ki int) reflect.Type {
+		var fs []reflect.StructField
+		for _, n := range ns {
+			fs = append(fs, reflect.StructField{Name: "F" + strconv.Itoa(n), Type: kinds[ki].t, Tag: reflect.StructTag(fmt.Sprintf(`protobuf:"%s,%d,opt"`, kinds[ki].tag, n))})
+		}
+		return reflect.StructOf(fs)
+	}
+	check := func(ns []int, ki int) {
+		k := protoCase{What: fmt.Sprintf("field numbers %v kind %d", ns, ki)}
+		if len(ns) > 3 {
+			k.What = fmt.Sprintf("field numbers (all %d) kind %d", len(ns), ki)
+		}
+		t := build(ns, ki)
+		v := reflect.New(t).Elem()
+		for i := range ns {
+			kinds[ki].set(v.Field(i), i)
+		}
+		var b []byte
+		var err error
+		c.Case()
+		c.Eval(1)
+		if p := protect(func() { b, err = proto.Marshal(v.Interface()) }); p != "" || err != nil {
+			c.Diverge(prop, "proto.Marshal(field numbers around the powers of two)", "nil error", fmt.Sprintf("%v %s", err, p), "", k)
+			return
+		}
+		// every field is on the wire under its own number, in declaration order
+		rest := b
+		for i, n := range ns {
+			tag, tn := binary.Uvarint(rest)
+			if tn <= 0 || int(tag>>3) != n {
+				c.Diverge(prop, "proto.Marshal(field numbers around the powers of two)", fmt.Sprintf("field %d written under number %d", i, n), fmt.Sprintf("number %d (bytes %x)", tag>>3, b), "", k)
+				return
+			}
+			rest = rest[tn:]
+			switch tag & 7 {
+			case 0:
+				_, vn := binary.Uvarint(rest)
+				rest = rest[vn:]
+			case 1:
+				rest = rest[8:]
+			case 2:
+				l, ln := binary.Uvarint(rest)
+				rest = rest[ln+int(l):]
+			}
+		}
+		out := reflect.New(t)
+		if p := protect(func() { err = proto.Unmarshal(b, out.Interface()) }); p != "" || err != nil || !reflect.DeepEqual(out.Elem().Interface(), v.Interface()) {
+			c.Diverge(prop, "proto.Unmarshal(Marshal(v))(field numbers around the powers of two)", fmt.Sprintf("%+v", v.Interface()), fmt.Sprintf("%+v err=%v %s", out.Elem().Interface(), err, p), "", k)
+		}
+	}
+	for ki := range kinds {
+		check(nums, ki)
+		for _, n := range nums {
+			check([]int{n}, ki)
+		}
+		for i := 0; i+1 < len(nums); i += 2 {
+			check([]int{nums[i], nums[i+1]}, ki)
+		}
+	}
+}
+
 func protoIntegers(c *Ctx, prop string) {
 	protoByteArrayPositions(c, prop)
+	protoFieldNumbers(c, prop)
 	var lat []uint64
 	for n := 1; n <= 10; n++ {
 		var v uint64
@@ -860,7 +943,7 @@ func c03Replay(c *Ctx, raw stdjson.RawMessage) {
 	}
 	var k protoCase
 	if stdjson.Unmarshal(raw, &k) == nil {
-		if strings.HasPrefix(k.What, "composite map") || strings.HasPrefix(k.What, "generated-code types") || strings.HasPrefix(k.What, "recursive types") || strings.HasPrefix(k.What, "integer lattice") || strings.HasPrefix(k.What, "byte array positions") {
+		if strings.HasPrefix(k.What, "composite map") || strings.HasPrefix(k.What, "generated-code types") || strings.HasPrefix(k.What, "recursive types") || strings.HasPrefix(k.What, "integer lattice") || strings.HasPrefix(k.What, "byte array positions") || strings.HasPrefix(k.What, "field numbers") {
 			c03CompositeMaps(c)
 			return
 		}
@@ -1111,7 +1194,7 @@ func c12Replay(c *Ctx, raw stdjson.RawMessage) {
 	if stdjson.Unmarshal(raw, &k) != nil {
 		return
 	}
-	if strings.HasPrefix(k.What, "integer lattice") || strings.HasPrefix(k.What, "byte array positions") {
+	if strings.HasPrefix(k.What, "integer lattice") || strings.HasPrefix(k.What, "byte array positions") || strings.HasPrefix(k.What, "field numbers") {
 		protoIntegers(c, "C12")
 		return
 	}
@@ -1505,7 +1588,68 @@ func c07Append(c *Ctx, v *allocVec) {
 
 // c07ByteArrays: a [N]byte field given payloads shorter than, as long as and longer than N (up to a megabyte): an error or a
 // value, the fields next to the array untouched either way, nothing written outside the array
+// c07TopLevelLengths: a length-delimited value as the whole input of Unmarshal (string, []byte, [N]byte targets): payloads
+// around the lengths where the prefix grows, canonical and padded prefixes, the input cut short by 0..4 bytes, handed
+// over as a slice without spare capacity (a read beyond it faults) and as one with guard bytes behind it (a read
+// beyond the input shows in the value)
+func c07TopLevelLengths(c *Ctx) {
+	targets := []func() any{func() any { return new(string) }, func() any { return new([]byte) }, func() any { return new([300]byte) }, func() any { return new(*string) }}
+	for _, n := range []int{0, 1, 127, 128, 129, 300, 16383, 16384, 16385} {
+		for pad := 0; pad <= 2; pad++ {
+			prefix := uvarintBytes(uint64(n))
+			for i := 0; i < pad; i++ {
+				prefix[len(prefix)-1] |= 0x80
+				prefix = append(prefix, 0)
+			}
+			full := append(append([]byte(nil), prefix...), bytes.Repeat([]byte{'p'}, n)...)
+			for cut := 0; cut <= 4 && cut <= len(full); cut++ {
+				for ti, mk := range targets {
+					for _, guard := range []bool{false, true} {
+						k := protoCase{What: fmt.Sprintf("top-level lengths n=%d pad=%d cut=%d target=%d guard=%v", n, pad, cut, ti, guard)}
+						m := len(full) - cut
+						var in []byte
+						if guard {
+							buf := append(append([]byte(nil), full[:m]...), bytes.Repeat([]byte{0xA5}, 16)...)
+							in = buf[:m]
+						} else {
+							buf := make([]byte, m)
+							copy(buf, full[:m])
+							in = buf[:m:m]
+						}
+						out := mk()
+						var err error
+						c.Case()
+						c.Eval(1)
+						if p := protect(func() { err = proto.Unmarshal(in, out) }); p != "" {
+							c.Diverge("C07", "proto.Unmarshal(length-delimited value as the whole input, cut short)", "an error or a value, no panic", p, "", k)
+							continue
+						}
+						if err == nil {
+							var got []byte
+							switch v := out.(type) {
+							case *string:
+								got = []byte(*v)
+							case *[]byte:
+								got = *v
+							case **string:
+								if *v != nil {
+									got = []byte(**v)
+								}
+							}
+							if bytes.IndexByte(got, 0xA5) >= 0 || len(got) > m {
+								c.Diverge("C07", "proto.Unmarshal(length-delimited value as the whole input, cut short)", "a value made of the input's bytes",
+									fmt.Sprintf("%d bytes, some from beyond the %d-byte input", len(got), m), "", k)
+							}
+						}
+					}
+				}
+			}
+		}
+	}
+}
+
 func c07ByteArrays(c *Ctx) {
+	c07TopLevelLengths(c)
 	for _, field := range []int{2, 4} {
 		for _, n := range []int{0, 1, 3, 4, 5, 8, 15, 16, 17, 40, 4096, 1 << 20} {
 			c07ByteArray(c, field, n)
@@ -1718,6 +1862,10 @@ func c07Replay(c *Ctx, raw stdjson.RawMessage) {
 	}
 	var k protoCase
 	if stdjson.Unmarshal(raw, &k) == nil {
+		if strings.HasPrefix(k.What, "top-level lengths") {
+			c07TopLevelLengths(c)
+			return
+		}
 		if strings.HasPrefix(k.What, "top-level ") && len(k.Shape) == 1 {
 			c07TopLevel(c, k, elemType(k.Shape[0].K))
 			return
